@@ -2,9 +2,11 @@ package main
 
 import (
 	"bytes"
+	"os"
 	"runtime"
 	"strconv"
 	"sync"
+	"time"
 
 	"github.com/islishude/bip39"
 )
@@ -101,6 +103,8 @@ func emitOv(r ovResult, role string, sc int) {
 	emit(r.o.into(e))
 }
 
+var serialisedRuns int
+
 func runOverlap(tier string, seed int64) {
 	concMode = true
 	r := newRng(seed, "overlap")
@@ -132,17 +136,39 @@ func runOverlap(tier string, seed int64) {
 		}
 		doneA, doneB := make(chan ovResult, 1), make(chan ovResult, 1)
 		g.start(nA, lA, a, doneA)
-		<-a.stalled // A is inside Read, kA bytes delivered
+		heldA := true
+		var ra ovResult
+		select {
+		case <-a.stalled: // A is inside Read, kA bytes delivered
+		case ra = <-doneA: // the call returned without asking for more (it did not read to the end): nothing to hold
+			heldA = false
+		}
 		b := &callSrc{fill: newRng(seed, "ov/b/"+strconv.Itoa(sc)), gateAt: -1}
 		if sc%2 == 0 {
 			b.script = []rstep{{K: 3}, {K: 0}, {K: 40}}
 		}
 		g.start(nB, lB, b, doneB)
-		rb := <-doneB
-		close(a.gate)
-		ra := <-doneA
+		// B normally completes while A is held.  A library may legitimately serialise its use of the source (a lock
+		// held across the read): then B cannot finish before A, so A is released after a grace period.
+		var rb ovResult
+		if heldA {
+			select {
+			case rb = <-doneB:
+				close(a.gate)
+			case <-time.After(250 * time.Millisecond):
+				close(a.gate)
+				rb = <-doneB
+				serialisedRuns++
+			}
+			ra = <-doneA
+		} else {
+			rb = <-doneB
+		}
 		emitOv(rb, "B-runs-while-A-is-held", sc)
 		emitOv(ra, "A-held-in-Read", sc)
 	}
 	swapSource(osRandReader(), "os")
+	if serialisedRuns > 0 {
+		os.Stderr.WriteString("overlap: the library serialised " + strconv.Itoa(serialisedRuns) + " scenario(s): B waited for A\n")
+	}
 }
